@@ -87,16 +87,33 @@ func explain(c *Ctx, o *Obligation, dir string) {
 		return
 	}
 	fmt.Printf("    explain: %d conjuncts\n", len(cs))
+	type res struct {
+		status string
+	}
+	out := make([]string, len(cs))
+	sem := make(chan struct{}, 12)
+	done := make(chan int, len(cs))
 	for i, g := range cs {
-		sub := &Obligation{Name: fmt.Sprintf("%s.conj%d", o.Name, i), CtxLen: o.CtxLen, PC: o.PC, Goal: g}
-		f := filepath.Join(dir, sanitize(sub.Name)+".smt2")
-		os.WriteFile(f, []byte(buildQuery(c, sub, false)), 0o644)
-		r := runSolverSimple(solvers[0], f, 5)
+		i, g := i, g
+		sem <- struct{}{}
+		go func() {
+			defer func() { <-sem; done <- i }()
+			sub := &Obligation{Name: fmt.Sprintf("%s.conj%d", o.Name, i), CtxLen: o.CtxLen, PC: o.PC, Goal: g}
+			f := filepath.Join(dir, sanitize(sub.Name)+".smt2")
+			os.WriteFile(f, []byte(buildQuery(c, sub, false)), 0o644)
+			r := runSolverSimple(solvers[0], f, 4)
+			out[i] = r.status
+			os.Remove(f)
+		}()
+	}
+	for range cs {
+		<-done
+	}
+	for i, g := range cs {
 		mark := "ok  "
-		if r.status != "unsat" {
+		if out[i] != "unsat" {
 			mark = "FAIL"
 		}
-		fmt.Printf("      %s [%s] %s\n", mark, r.status, truncate(g, 300))
-		os.Remove(f)
+		fmt.Printf("      %s [%s] %s\n", mark, out[i], truncate(g, 300))
 	}
 }
